@@ -24,6 +24,7 @@ IntOf(c) ==
     [] c = "-8" -> INat(-8) [] c = "10" -> INat(10) [] c = "16" -> INat(16) [] c = "20" -> INat(20)
     [] c = "36" -> INat(36) [] c = "37" -> INat(37) [] c = "63" -> INat(63) [] c = "64" -> INat(64)
     [] c = "-64" -> INat(-64) [] c = "65" -> INat(65) [] c = "128" -> INat(128) [] c = "1000" -> INat(1000)
+    [] c = "192" -> INat(192) [] c = "255" -> INat(255) [] c = "256" -> INat(256) [] c = "257" -> INat(257)
     [] c = "w" -> W64 [] c = "big" -> BigU [] c = "-big" -> INeg(BigU) [] c = "big+1" -> IAdd(BigU, INat(1))
     [] c = "u32max" -> U32MAX [] c = "huge" -> USIZE_MAX [] c = "imax" -> ISIZE_MAX [] c = "imin" -> ISIZE_MIN
     [] c = "2^24" -> I(0, <<0, 0, 0, 1>>) [] c = "2^62" -> P2_62 [] c = "-2^62" -> INeg(P2_62) [] c = "2^70" -> P2_70 [] c = "-2^70" -> INeg(P2_70)
@@ -86,7 +87,8 @@ Cl(axis, tier) ==
     [] axis = "I" -> <<"0", "1", "-1", "2", "7", "-7", "-8", "big", "-big">>
     [] axis = "Nroot" -> <<"0", "1", "2", "3", "64", "huge">>
     [] axis = "Npow" -> <<"0", "1", "2", "3", "64", "huge">>
-    [] axis = "Nshift" -> <<"0", "1", "63", "64", "65", "128", "2^24", "huge">>
+    \* (192, 255..257: around the word length of the "big" operand - four words - where an index becomes the first one past the buffer)
+    [] axis = "Nshift" -> <<"0", "1", "63", "64", "65", "128", "192", "255", "256", "257", "2^24", "huge">>
     [] axis = "Nchunk" -> <<"0", "1", "8", "63", "64", "128", "huge">>
     [] axis = "Radix" -> <<"0", "1", "2", "10", "16", "36", "37", "u32max">>
     [] axis = "Nprec" -> <<"0", "1", "2", "20", "1000">>
